@@ -1,7 +1,8 @@
 (* C02: the scalar functions of base/timemath and core/measurements as the translator reads them
-   from the current source (STGen.Gen) are the functions of the hand-written model ST.Model.Ftm. *)
+   from the current source (STGen.Gen) are the functions of the hand-written models ST.Model.Ftm (durations) and
+   ST.Model.FtmMeas (measurements, time.Time as int64 seconds + nanoseconds). *)
 From Coq Require Import ZArith Bool List Lia.
-From ST Require Import Base.Ints Model.NtpTime Model.Ftm GenLib.GoSem GenLib.GoSemBridge.
+From ST Require Import Base.Ints Model.NtpTime Model.Ftm Model.FtmMeas Proofs.FtmMeasProofs GenLib.GoSem GenLib.GoSemBridge.
 From STGen Require Import Gen.
 Open Scope Z_scope.
 
@@ -24,25 +25,49 @@ Proof.
 Qed.
 Print Assumptions gen_timemath_Midpoint_eq.
 
-(* measurements.Measurement {Timestamp, Offset, Error} against the model's record: the model keeps
-   of the error only whether it is nil *)
-Definition to_meas (g : Gen.measurements_Measurement) : Ftm.meas :=
-  {| m_ts := Gen.measurements_Measurement_Timestamp g;
-     m_off := Gen.measurements_Measurement_Offset g;
-     m_err := negb (Gen.measurements_Measurement_Error g =? 0) |}.
+(* measurements.Measurement {Timestamp, Offset, Error} against the model's record.  The translator models a
+   time.Time as ONE unbounded integer of Unix nanoseconds (GoSem: time_Sub saturating, time_Add exact, After = >);
+   the model FtmMeas as Go stores it: int64 seconds since year 1 and nanoseconds, Add with saturating seconds, Sub
+   with the wrapping difference and the Add/Equal overflow check.  gt_of_unix converts; the model keeps of the error
+   only whether it is nil.
+
+   Range hypothesis: FtmMeas.unix_repr u, i.e.  MinInt64 * 10^9 <= u + 62135596800 * 10^9 < 2^63 * 10^9.
+   That is exactly the set of time.Time values (Proofs.FtmMeasProofs.unix_range_exact: gt_unix maps the well-formed
+   times onto it, gt_of_unix back), so the two time models agree on midpoint for ALL representable times - the zero
+   time.Time{}, times more than 292 years apart (saturating Sub) and both ends of the range included; outside it the
+   translator's integer denotes no time.Time at all. *)
+Definition to_tmeas (g : Gen.measurements_Measurement) : FtmMeas.tmeas :=
+  {| tm_ts := gt_of_unix (Gen.measurements_Measurement_Timestamp g);
+     tm_off := Gen.measurements_Measurement_Offset g;
+     tm_err := negb (Gen.measurements_Measurement_Error g =? 0) |}.
 
 Lemma gen_measurements_midpoint_eq : forall x y,
-  to_meas (Gen.measurements_midpoint x y) = Ftm.midpoint_m (to_meas x) (to_meas y).
+  unix_repr (Gen.measurements_Measurement_Timestamp x) -> unix_repr (Gen.measurements_Measurement_Timestamp y) ->
+  to_tmeas (Gen.measurements_midpoint x y) = FtmMeas.tmidpoint (to_tmeas x) (to_tmeas y).
 Proof.
-  intros [xt xo xe] [yt yo ye].
-  unfold Gen.measurements_midpoint, Ftm.midpoint_m, Ftm.midpoint, to_meas,
-    Gen.set_measurements_Measurement_Offset, Gen.set_measurements_Measurement_Timestamp,
-    Gen.zero_measurements_Measurement, time_After, time_Add.
-  cbn [m_ts m_off m_err Gen.measurements_Measurement_Timestamp Gen.measurements_Measurement_Offset
-       Gen.measurements_Measurement_Error].
-  destruct (yt <? xt);
-    cbn [negb m_ts m_off m_err Gen.measurements_Measurement_Timestamp Gen.measurements_Measurement_Offset
-         Gen.measurements_Measurement_Error];
-    change (negb (0 =? 0)) with false; gobridge; reflexivity.
+  intros [xt xo xe] [yt yo ye]. cbn [Gen.measurements_Measurement_Timestamp]. intros Hx Hy.
+  destruct (proj2 unix_range_exact xt Hx) as [Wx Ux]. destruct (proj2 unix_range_exact yt Hy) as [Wy Uy].
+  set (X := {| tm_ts := gt_of_unix xt; tm_off := xo; tm_err := negb (xe =? 0) |}).
+  set (Y := {| tm_ts := gt_of_unix yt; tm_off := yo; tm_err := negb (ye =? 0) |}).
+  change (to_tmeas (Build_measurements_Measurement xt xo xe)) with X.
+  change (to_tmeas (Build_measurements_Measurement yt yo ye)) with Y.
+  pose proof (tmid_ts_wf X Y Wx Wy) as Wr. pose proof (tmid_ts_value X Y Wx Wy) as Vr. cbv zeta in Vr.
+  assert (Ax : gt_abs (tm_ts X) = xt + unix_off) by (unfold gt_unix in Ux; cbn [tm_ts X]; lia).
+  assert (Ay : gt_abs (tm_ts Y) = yt + unix_off) by (unfold gt_unix in Uy; cbn [tm_ts Y]; lia).
+  rewrite Ax, Ay in Vr.
+  (* the translated function, field by field *)
+  unfold Gen.measurements_midpoint, to_tmeas, Gen.set_measurements_Measurement_Offset,
+    Gen.set_measurements_Measurement_Timestamp, Gen.zero_measurements_Measurement, time_After, time_Add.
+  cbn [Gen.measurements_Measurement_Timestamp Gen.measurements_Measurement_Offset Gen.measurements_Measurement_Error].
+  assert (Ht : gt_of_unix (if negb (yt <? xt) then xt + quot_i64 (time_Sub yt xt) 2 else yt + quot_i64 (time_Sub xt yt) 2)
+               = tm_ts (tmidpoint X Y)).
+  { apply gt_abs_inj; [| exact Wr |].
+    - apply gt_of_abs_wf. gobridge. unfold time_sub, go_div, sat64, unix_repr in *.
+      destruct (Z.ltb_spec yt xt); cbn [negb]; bcases; rewrite i64_id' by (consts; lia); consts; lia.
+    - unfold gt_of_unix. rewrite gt_abs_of_abs, Vr. gobridge. unfold time_sub, go_div, sat64, unix_repr in *.
+      destruct (Z.ltb_spec yt xt); cbn [negb]; bcases; rewrite i64_id' by (consts; lia); consts; lia. }
+  destruct (negb (yt <? xt));
+    cbn [Gen.measurements_Measurement_Timestamp Gen.measurements_Measurement_Offset Gen.measurements_Measurement_Error];
+    rewrite Ht; unfold tmidpoint, Ftm.midpoint; cbn [tm_off tm_err X Y]; gobridge; reflexivity.
 Qed.
 Print Assumptions gen_measurements_midpoint_eq.
